@@ -156,6 +156,10 @@ type FailoverController struct {
 	// Timers
 	failoverTimer *time.Timer
 	failbackTimer *time.Timer
+	// timerGen identifies the timer armed last. It changes whenever a timer is armed or
+	// cancelled, so that a callback which had already fired and was waiting for mu when
+	// its timer was stopped can tell that it is stale (Timer.Stop cannot recall it).
+	timerGen uint64
 
 	// Statistics
 	failoversInitiated uint64
@@ -294,7 +298,7 @@ func (c *FailoverController) ForceFailover(reason string) error {
 		return err
 	}
 	// initiateFailover only moves the state to in-progress; carry the failover out.
-	go c.executeFailover(reason)
+	go c.executeFailover(reason, 0)
 	return nil
 }
 
@@ -342,8 +346,10 @@ func (c *FailoverController) handleHealthEvent(event HealthEvent) {
 			if c.failoverTimer != nil {
 				c.failoverTimer.Stop()
 			}
+			c.timerGen++
+			gen := c.timerGen
 			c.failoverTimer = time.AfterFunc(c.config.FailoverDelay, func() {
-				c.executeFailover("partner health check failure")
+				c.executeFailover("partner health check failure", gen)
 			})
 		}
 
@@ -355,6 +361,7 @@ func (c *FailoverController) handleHealthEvent(event HealthEvent) {
 			if c.failoverTimer != nil {
 				c.failoverTimer.Stop()
 			}
+			c.timerGen++
 			c.state = FailoverStateNormal
 			atomic.AddUint64(&c.failoversCanceled, 1)
 
@@ -376,8 +383,10 @@ func (c *FailoverController) handleHealthEvent(event HealthEvent) {
 			if c.failbackTimer != nil {
 				c.failbackTimer.Stop()
 			}
+			c.timerGen++
+			gen := c.timerGen
 			c.failbackTimer = time.AfterFunc(c.config.FailbackDelay, func() {
-				c.executeFailback("partner recovered")
+				c.executeFailback("partner recovered", gen)
 			})
 		}
 	}
@@ -398,6 +407,7 @@ func (c *FailoverController) evaluateState() {
 			if c.failbackTimer != nil {
 				c.failbackTimer.Stop()
 			}
+			c.timerGen++
 			c.state = FailoverStateComplete
 			c.logger.Warn("Partner unhealthy during failback delay, canceling failback")
 			c.mu.Unlock()
@@ -421,6 +431,7 @@ func (c *FailoverController) initiateFailover(reason string) error {
 	if c.failoverTimer != nil {
 		c.failoverTimer.Stop()
 	}
+	c.timerGen++
 
 	c.state = FailoverStateInProgress
 	atomic.AddUint64(&c.failoversInitiated, 1)
@@ -437,18 +448,22 @@ func (c *FailoverController) initiateFailover(reason string) error {
 	return nil
 }
 
-// executeFailover performs the actual failover.
-func (c *FailoverController) executeFailover(reason string) {
+// executeFailover performs the actual failover. timerGen is the generation of the
+// failover timer that fired, or 0 when the failover was initiated by ForceFailover.
+func (c *FailoverController) executeFailover(reason string, timerGen uint64) {
 	c.mu.Lock()
 
-	if c.state != FailoverStatePending && c.state != FailoverStateInProgress {
+	if timerGen != 0 {
+		// Only the timer armed for the pending failover may execute it: a timer that was
+		// cancelled (partner recovered) or superseded after it had fired must not promote.
+		if c.state != FailoverStatePending || timerGen != c.timerGen {
+			c.mu.Unlock()
+			return
+		}
+		atomic.AddUint64(&c.failoversInitiated, 1)
+	} else if c.state != FailoverStateInProgress {
 		c.mu.Unlock()
 		return
-	}
-
-	// A forced failover was already counted by initiateFailover.
-	if c.state == FailoverStatePending {
-		atomic.AddUint64(&c.failoversInitiated, 1)
 	}
 	c.state = FailoverStateInProgress
 	oldRole := c.currentRole
@@ -534,11 +549,12 @@ func (c *FailoverController) initiateFailback(reason string) error {
 	return nil
 }
 
-// executeFailback performs the actual failback.
-func (c *FailoverController) executeFailback(reason string) {
+// executeFailback performs the actual failback. timerGen is the generation of the
+// failback timer that fired.
+func (c *FailoverController) executeFailback(reason string, timerGen uint64) {
 	c.mu.Lock()
 
-	if c.state != FailoverStateFailbackPending {
+	if c.state != FailoverStateFailbackPending || timerGen != c.timerGen {
 		c.mu.Unlock()
 		return
 	}
